@@ -1,6 +1,7 @@
 pub mod autoutil;
 pub mod deep;
 pub mod rectx;
+pub mod scale;
 pub mod selftest;
 pub mod c01;
 pub mod c02;
@@ -86,7 +87,11 @@ fn replay_one(prop: &str, kind: &str, text: &str, seed: u64, rep: &mut Report) -
     if kind == "deep" {
         let mut it = text.split_whitespace();
         if let (Some(k), Some(n)) = (it.next(), it.next().and_then(|x| x.parse::<usize>().ok())) {
-            let expect = if k == "auto-chain" { deep::expect_auto_chain(n) } else { deep::expect_re_literal(n) };
+            let expect = match k {
+                "auto-chain" => deep::expect_auto_chain(n),
+                "re-chain" => "ok".to_string(),
+                _ => deep::expect_re_literal(n),
+            };
             deep::probe(rep, k, n, &expect, "replay", seed);
             return true;
         }
